@@ -156,6 +156,9 @@ pub fn gen_case(seed: u64, idx: u64, pairs: usize) -> Case {
             fd_limit: rng.urange(2, 6) as u32,
             threads: *rng.pick(&[1u32, 1, 2, 2, 3, 3, 4, 5, 6, 8, 12, 16]),
             sched: Sched::Policy { policy, seed: rng.next_u64() },
+            fd_headroom: if rng.chance(1, 8) { Some(*rng.pick(&[0u32, 1, 1, 2, 3, 4, 6])) } else { None },
+            fd_from_batch: if rng.chance(1, 3) { 0 } else { 1 + rng.below(2 * total as u64 + 2) as u32 },
+            fd_for_batches: *rng.pick(&[0u32, 1, 1, 2, 3]),
         });
     }
     Case { input, runs }
@@ -217,6 +220,10 @@ fn account(st: &mut WStats, idx: u64, case: &Case, run: &crate::world::CaseRun) 
         st.chan_ops += inv.chan_ops;
         st.chan_blocks += inv.chan_blocks;
         let cfg = &case.runs[i];
+        if cfg.fd_headroom.is_some() {
+            bump(&mut st.counters, "sched.fd_starved_invocations", 1);
+            bump(&mut st.counters, if inv.result.is_ok() { "probe.fd_starved_run_succeeded" } else { "probe.fd_starved_run_failed_cleanly" }, 1);
+        }
         let mut d = Digest::new();
         d.u64(input_digest);
         d.u64(cfg.batch_size as u64);
@@ -477,6 +484,13 @@ fn minimise(case: &Case, oracle: &str, root: &Path) -> (Case, u64) {
         }
         // simpler knobs and schedules
         for i in 0..cur.runs.len() {
+            if cur.runs[i].fd_headroom.is_some() {
+                let mut c = cur.clone();
+                c.runs[i].fd_headroom = None;
+                if fails(&c) {
+                    cur = c;
+                }
+            }
             for (t, b, fd) in [(1u32, cur.runs[i].batch_size, cur.runs[i].fd_limit), (cur.runs[i].threads, cur.runs[i].batch_size, 2), (cur.runs[i].threads, 1, cur.runs[i].fd_limit)] {
                 let mut c = cur.clone();
                 c.runs[i].threads = t;
